@@ -129,6 +129,12 @@ where
     fn compute_matrices(polynomial: &P, param: &Self::LinCodePCParams) -> (Matrix<F>, Matrix<F>) {
         let mut coeffs = Self::poly_to_vec(polynomial);
 
+        // The zero polynomial may come with an empty coefficient vector; commit to it as the
+        // constant 0 so that the matrix dimensions below are well defined.
+        if coeffs.is_empty() {
+            coeffs.push(F::zero());
+        }
+
         // 1. Computing the matrix dimensions.
         let (n_rows, n_cols) = param.compute_dimensions(coeffs.len());
 
